@@ -66,6 +66,14 @@ check("C12", "exploration",
       "The round trip through the real code is its own oracle; formats the loader refuses are counted, not judged.",
       "round-trip monitor over executions of the real writer and reader for every accepted configuration", "DESIGN.md 5/C12")
 
+check("C11", "exploration",
+      "Every property x format x spelling of the pools (all code points x all spellings for the item delimiter, all permitted and "
+      "a set of forbidden characters, names in three casings, ~45 encoding names, malformed values) is set through "
+      "DataFormat.set_property and through Cid.read and compared with a table model; all pairs of delimiter/quote/escape/line "
+      "delimiter and decimal/thousands values are completed through Cid.read for the consistency rules; defaults are read back.",
+      "Trusts the table model cpverif/models/dataformatmodel.py and Python's codecs registry; ambiguous spellings are unjudged.",
+      "boundary observation of set_property / Cid.read vs table model, exhaustive over the stated pools", "DESIGN.md 5/C11")
+
 NOT_YET = "check not built yet in this session; see DESIGN.md section 5 for the planned monitor"
 
 def main():
